@@ -9,6 +9,7 @@ import fcntl
 import glob
 import hashlib
 import json
+import marshal
 import os
 import shutil
 import subprocess
@@ -92,7 +93,8 @@ def extract(config):
     """Returns the directory holding the fact files of `config` for the
     current tree, running the driver if needed."""
     os.makedirs(os.path.join(CACHE, "facts"), exist_ok=True)
-    key = "%s-%s" % (config, cur_hash())
+    rtag = hashlib.sha256(os.path.abspath(REPO).encode()).hexdigest()[:6]
+    key = "%s-%s-%s" % (config, rtag, cur_hash())
     out = os.path.join(CACHE, "facts", key)
     lockp = os.path.join(CACHE, "facts", config + ".lock")
     with open(lockp, "w") as lf:
@@ -139,7 +141,7 @@ def extract(config):
             json.dump({"nonce": nonce, "config": config, "wall_s": time.time() - t0,
                        "files": sorted(os.path.basename(f) for f in files)}, fh)
         # garbage-collect older extractions of this config
-        for old in glob.glob(os.path.join(CACHE, "facts", config + "-*")):
+        for old in glob.glob(os.path.join(CACHE, "facts", "%s-%s-*" % (config, rtag))):
             if old != out and os.path.isdir(old):
                 shutil.rmtree(old, ignore_errors=True)
         return out
@@ -167,33 +169,80 @@ class Crate:
         self.adt_by_path = {a["path"]: a for a in self.adts}
 
 
+LIB_CRATES = ("quantities", "qty_macros", "astronomical_quantities")
+
+
 class FactSet:
-    """All crates of one configuration."""
+    """All crates of one configuration (fact files are parsed lazily)."""
 
     def __init__(self, config):
         self.config = config
         self.dir = extract(config)
-        meta = json.load(open(os.path.join(self.dir, "DONE")))
-        self.crates = []
-        for f in meta["files"]:
+        self.meta = json.load(open(os.path.join(self.dir, "DONE")))
+        self.files = []
+        for f in self.meta["files"]:
+            stem = f.rsplit("-", 1)[0]
+            is_test = stem.endswith("-test")
+            name = stem[:-5] if is_test else stem
+            self.files.append((name, is_test, f))
+        self._loaded = {}
+        self._crates = []
+
+    def _load(self, f):
+        if f in self._loaded:
+            return self._loaded[f]
+        pk = os.path.join(self.dir, f + ".marshal")
+        d = None
+        if os.path.exists(pk):
+            try:
+                with open(pk, "rb") as fh:
+                    d = marshal.load(fh)
+            except Exception:
+                d = None
+        if d is None:
             d = json.load(open(os.path.join(self.dir, f)))
-            if d.get("nonce") != meta["nonce"] or d.get("config") != config:
-                raise ExtractionError(config, "stale fact file " + f)
-            c = Crate(d, f)
-            c.src = d.get("src", "")
-            if any(o.name == c.name and o.is_test == c.is_test and o.src == c.src for o in self.crates):
-                continue  # e.g. the proc-macro crate built and checked
-            self.crates.append(c)
+            try:
+                tmp = pk + ".%d" % os.getpid()
+                with open(tmp, "wb") as fh:
+                    marshal.dump(d, fh)
+                os.replace(tmp, pk)
+            except Exception:
+                pass
+        if d.get("nonce") != self.meta["nonce"] or d.get("config") != self.config:
+            raise ExtractionError(self.config, "stale fact file " + f)
+        c = Crate(d, f)
+        c.src = d.get("src", "")
+        dup = [o for o in self._crates if o.name == c.name and o.is_test == c.is_test and o.src == c.src]
+        if dup:
+            c = dup[0]  # e.g. the proc-macro crate built and checked
+        else:
+            self._crates.append(c)
+        self._loaded[f] = c
+        return c
+
+    def select(self, pred):
+        """Crates whose (name, is_test) satisfies pred."""
+        res = []
+        for (name, is_test, f) in self.files:
+            if pred(name, is_test):
+                c = self._load(f)
+                if c not in res:
+                    res.append(c)
+        return res
+
+    @property
+    def crates(self):
+        return self.select(lambda n, t: True)
 
     def get(self, name, is_test=False, src=None):
-        r = [c for c in self.crates if c.name == name and c.is_test == is_test
-             and (src is None or c.src.endswith(src))]
+        r = [c for c in self.select(lambda n, t: n == name and t == is_test)
+             if src is None or c.src.endswith(src)]
         if len(r) != 1:
             raise KeyError("crate %s (test=%s) found %d times in %s" % (name, is_test, len(r), self.config))
         return r[0]
 
     def find(self, name, is_test=False):
-        return [c for c in self.crates if c.name == name and c.is_test == is_test]
+        return self.select(lambda n, t: n == name and t == is_test)
 
 
 _FS = {}
